@@ -214,6 +214,32 @@ let abi_main () =
      | _ -> failwith ("bad line: " ^ line)); flush stdout
   done with End_of_file -> ())
 
+(* ---------------- driver (C14) ---------------- *)
+(* stdin: "<E|S|C|L> <has_o 0|1> <kinds: string over C A O> <index of the failing subprocess or -1>"
+   stdout: "exit=<c> tmps=<created>/<unlinked> spawns=<p1,p2,...> written=<paths>" *)
+let driver_main () =
+  let path_s = function POut i -> Printf.sprintf "out%d" (int_of_nat i) | POpt -> "opt" | PAout -> "a.out" | PStdout -> "stdout"
+    | PTmp n -> Printf.sprintf "tmp%d" (int_of_nat n) in
+  let proc_s = function
+    | Cc1 (i, _) -> Printf.sprintf "cc1:%d" (int_of_nat i)
+    | As (Inl p, _) -> "as:" ^ path_s p | As (Inr i, _) -> Printf.sprintf "as:in%d" (int_of_nat i)
+    | Ld _ -> "ld" in
+  (try while true do
+    let line = String.trim (input_line stdin) in
+    (match List.filter (fun s -> s <> "") (String.split_on_char ' ' line) with
+     | [m; o; ks; fail] ->
+       let md = (match m with "E" -> ME | "S" -> MS | "C" -> MC | _ -> MLink) in
+       let kinds = List.init (String.length ks) (fun i -> match ks.[i] with 'C' -> KC | 'A' -> KAsm | _ -> KObj) in
+       let f = int_of_string fail in
+       let orc k = int_of_nat k <> f in
+       let (c, tr) = final (driver orc md (o = "1") kinds) in
+       let spawns = List.filter_map (function ESpawn (p, ok) -> Some (proc_s p ^ (if ok then "+" else "-")) | _ -> None) tr in
+       Printf.printf "exit=%d tmps=%d/%d spawns=%s written=%s\n" (int_of_nat c)
+         (List.length (tmp_created tr)) (List.length (tmp_unlinked tr)) (String.concat "," spawns)
+         (String.concat "," (List.map path_s (List.filter (function PTmp _ -> false | _ -> true) (written tr))))
+     | _ -> failwith ("bad line: " ^ line)); flush stdout
+  done with End_of_file -> ())
+
 (* ---------------- layout / declspec ---------------- *)
 (* stdin: "S|U <packed 0|1> <align0> <size align bf named>*"  (bf = -1 for an ordinary member)
    stdout: "<size> <align> <off:bit>*" *)
@@ -263,6 +289,7 @@ let () =
   | [_; "cexpr"] -> cexpr_main ()
   | [_; "codegen"] -> codegen_main ()
   | [_; "abi"] -> abi_main ()
+  | [_; "driver"] -> driver_main ()
   | [_; "layout"] -> layout_main ()
   | [_; "declspec-spec"] -> declspec_main ()
   | [_; "declspec-run"] -> declspec_run_main ()
